@@ -270,6 +270,11 @@ func applyProfile(c *RunConfig, ch *simrt.Chooser, p string) {
 			c.FaultEvery = 600
 		}
 		if p == "C09" {
+			// suffrage changes of live members while the leader keeps leading, then the leader
+			// alone with the non-voters
+			c.Ops["membership"] = 4
+			c.Faults["cut_leader_from_voters"] = 4
+			c.Faults["heal"] = 4
 			noDiskErrors()
 			if c.LongDelayPct < 20 {
 				c.LongDelayPct = 30
@@ -333,6 +338,11 @@ func applyProfile(c *RunConfig, ch *simrt.Chooser, p string) {
 		c.NotifyBuf = 8
 		c.Faults["isolate_leader"] = 5
 		c.Faults["asym_partition"] = 3
+		c.Faults["cut_leader_from_voters"] = 4
+		c.Ops["membership"] = 3
+		if c.NonVoters == 0 {
+			c.NonVoters = 1
+		}
 	case "C14":
 		c.IsolationOracle = true
 		c.LongDelayPct = 0
